@@ -232,6 +232,9 @@ def run(tier, rep):
         g = json.load(open(go))
         rep.add(evaluations=g["ops"])
         for pb in g["problems"]:
+            if pb["boundary"] == 0:
+                rep.violation("names:%s" % ("hash" if "murmur3" in pb else "lookup"), "look-up / removal by name: %s" % json.dumps({k: v for k, v in pb.items() if k not in ("hybrid", "boundary")}), pb)
+                continue
             rep.violation("growth:%s:%d" % ("hybrid" if pb["hybrid"] else "plain", pb["boundary"]), "particle array wrong after removals / additions around N == N_allocated == %d: %s" % (pb["boundary"], pb), pb)
     if not quick:
         common.build("asan")
